@@ -14,7 +14,7 @@ from core import q
 warnings.simplefilter('ignore')
 
 REQUIRED = ['treeOK_of_disciplined', 'tree_discipline', 'run_discipline', 'leaf_call_keeps_shutter', 'nRepeat_bounds', 'pass_first',
-            'pass_step', 'pass_last', 'pass_across', 'schedule_length', 'single_file_view', 'flatten_own_events']
+            'pass_step', 'pass_last', 'pass_across', 'schedule_length', 'single_file_view', 'flatten_own_events', 'wall_loop_depths']
 RULE = ('1..3 trench columns (or U-trench columns with 0..2 pillars) are dug with the real API from layouts of straight / tilted / S-bent '
         'guides (some leaving a neck that splits when inset), with random box counts, box height, z offset <= 0, deltaz, floor spacing, '
         'speeds, power-axis settings and base folders, and exported by the real TrenchWriter / UTrenchWriter.pgm() under random compiler '
@@ -42,7 +42,9 @@ CLAIM = {
             'by a calling file keeps x and y, other calling files are entered and left closed, so shutter-open x/y motion happens only '
             'inside leaf sub-programs (wall, floor, bed); the check runs on the real exported bytes every run. Depth schedule over Q: '
             'n = ceil((h_box - z_off)/deltaz) passes deltaz apart from level*h_box + z_off, the last within deltaz below the box top, '
-            'the floor at or above it, the next level at most deltaz above the last pass. Leaf tool-paths inside the footprints: measured.',
+            'the floor at or above it, the next level at most deltaz above the last pass; and the program side: k turns of the wall loop '
+            '[DWELL] FARCALL wall; $ZCURR += deltaz/neff; G1 Z$ZCURR, entered at the level\'s starting depth, put pass k at exactly that '
+            'schedule depth (every real REPEAT is matched against this shape each run). Leaf tool-paths inside the footprints: measured.',
     'note': 'PARTIAL: footprint containment of wall/floor/bed paths is sampled (shapely); it fails today for floor joins of blocks '
             'that split or stay concave (finding F9). Trusted: Lean kernel/Mathlib; Spec/Tree.lean (hand-written controller) run on the real files.',
     'technique': 'Lean 4 proof (soundness of a static shutter analysis for a tree interpreter; rational arithmetic) + translation validation of the real exported tree; footprints sampled (partial)',
@@ -235,6 +237,13 @@ def check_case(ctx, case):
             ctx.fail('spec', 'discipline', {**info, 'files': bad},
                      f'shutter discipline broken in {bad}: an x/y move or a call of a calling file with the shutter open, or a loop that changes the shutter', 'discipline')
             return
+        # the shape the depth theorem (wall_loop_depths) is about: every loop of a calling file is a wall loop over an x/y-only leaf
+        for f in T['files']:
+            if f['leaf'] and not f['leaf_xy']:
+                ctx.fail('corr', 'shape', {**info, 'file': f['name']}, f'{f["name"]}: a leaf sub-program with z / u words — the wall-loop theorem assumes x/y-only leaves', 'shape:leaf')
+            for lp in f['loops']:
+                if not lp['wall_loop']:
+                    ctx.fail('corr', 'shape', {**info, 'file': f['name'], 'loop': lp}, f'{f["name"]}: a loop that is not of the wall-loop shape [DWELL] FARCALL; $ZCURR += dz; G1 Z$ZCURR', 'shape:loop')
         tol0 = 3e-6
         fail = []
 
